@@ -40,6 +40,20 @@ reg("C19", "exploration",
     "exhaustive small-universe enumeration + property-based testing (Hypothesis) against a reference model",
     "DESIGN.md section 4 C19")
 
+reg("C03", "exploration",
+    "Hypothesis-generated scenarios (with/without annotation, noise, all model strategies and data types) run through "
+    "the real pipeline; a validity predicate over transcript_models.gtf and extended_annotation.gtf (exon order, "
+    "overlap, bounds, transcript/gene records, reference transcripts verbatim, extended = reference + novel).",
+    "Trusts the harness GTF parser and pysam-written BAMs; loci deeper than the region-splitting thresholds are covered "
+    "by the C05/C13 deep-locus generators.",
+    "property-based testing (Hypothesis) with validity-predicate oracle over outputs", "DESIGN.md section 4 C03")
+reg("C04", "exploration",
+    "Hypothesis-generated discovery scenarios with intron-graph noise; recount oracle: every novel intron occurs in a "
+    "corrected read of that chromosome, supporting reads exist, .nic/.nnic labels match the annotation, intron chains "
+    "are unique per strand, annotation-free runs report only novel_gene_* genes.",
+    "One known finding (mono-intron models differing only in polyA site) is listed in known_findings.jsonl.",
+    "property-based testing (Hypothesis) with recount oracle over outputs and inputs", "DESIGN.md section 4 C04")
+
 NOT_YET = "check not built yet in this session (see DESIGN.md section 6a build order)"
 
 
